@@ -157,6 +157,25 @@ def named_paths(t):
     return out
 
 
+def alias_names(t, idx):
+    """the names of the path idx with every command that has an alias no sibling shares named by its first such alias; None
+    when a command on the path is anonymous"""
+    out, cur = [], {"subs": t["cmds"]}
+    for i in idx:
+        sibs = cur["subs"]
+        cur = sibs[i]
+        if cur["anonymous"]:
+            return None
+        taken = set()
+        for j, x in enumerate(sibs):
+            if j != i:
+                taken.update([x["name"]] + x["aliases"])
+        taken.update(["help"])
+        free = [a for a in cur["aliases"] if a not in taken]
+        out.append(free[0] if free else cur["name"])
+    return out
+
+
 WRAP_ALPHA = ["a", "bc", "word", "x", " ", "  ", "-", "--", "---", "a-b", "well-known", "e-mail-address", "\n", "1", "42", "3-4", "\"q\"", "'s", ".", ",", "!",
               "?", "&", "_", "(", ")", "[--opt]", "<b>", "</b>", "longwordlongwordlongword", "x-", "-y", "a--b", "ab--", "é", "\xa0", "[-v\xa0<...>]", ";", "%",
               "\\", "\\<u>", "{", "}"]
@@ -195,12 +214,21 @@ def gen(rng, tier, info):
                         cases.append({"k": 0, "tree": t, "path": p, "d": d, "ansi": ansi})
                         n_sweep += 1
     # 'help <path>' prints the same page as '<path> --help' (and -h), on the default application configuration
-    n_h = 0
+    n_h = n_al = 0
     for i in range({"quick": 40, "thorough": 300, "search": 10}[tier]):
         t = rand_app(rng)
         for names, idx in named_paths(t):
             cases.append({"k": 3, "tree": t, "names": names, "path": idx, "cols": [80, 80, 60, 120][(i + n_h) % 4]})
             n_h += 1
+            # the same command named through an alias (of any command on the path): 'help sx' against 'sx --help'
+            al = alias_names(t, idx)
+            if al is not None and al != names:
+                cases.append({"k": 3, "tree": t, "names": al, "canon": names, "path": idx, "cols": [80, 60, 120, 80][(i + n_h) % 4]})
+                n_h += 1
+                n_al += 1
+        # the empty path: 'help' against '--help' and '-h' - the application's own page
+        cases.append({"k": 3, "tree": t, "names": [], "path": [], "cols": [80, 120, 60][i % 3]})
+        n_h += 1
     # narrow terminals: far outside the guard
     t = rand_app(rng)
     for w in (5, 12, 20, 30):
@@ -209,7 +237,7 @@ def gen(rng, tier, info):
             cases.append({"k": 0, "tree": t, "path": p, "W": w, "ansi": 0, "narrow": True})
     info["exhaustive"] = False
     info["distribution"] = {"wrap_only": n_w, "applications": n_apps, "pages": len(cases) - n_w - n_h, "pages_at_needed_width_plus_d": n_sweep,
-                            "help_command_runs": n_h}
+                            "help_command_runs": n_h, "help_runs_through_an_alias": n_al}
     return cases
 
 
@@ -276,6 +304,11 @@ def wire_from(c, o):
     default configuration are read from the live object"""
     if c["k"] == 2:
         return [2, S(c["text"]), c["width"]]
+    if c["k"] == 3 and not c["path"]:
+        # 'help' alone: the application page of the default configuration (its name, version, commands - the built-in help
+        # command among them - are read from the live configuration)
+        display, version, help, cmds = o[7]
+        return [1, o[3], 0, STYLE_SET, o_(c["tree"]["name"] or "app"), display, version, o[4], cmds, help]
     if c["k"] == 3:
         return wire_page(dict(c, k=0, path=help_target_path(c["tree"], c["path"])), o[3], gopts=o[4], app_name=c["tree"]["name"] or "app",
                          with_texts=False)
@@ -305,8 +338,9 @@ def help_target_path(t, idx):
 
 def describe(c):
     if c["k"] == 3:
-        return "DefaultApplicationConfig application %r at COLUMNS=%d: 'help %s' against '%s --help' and '-h'" % (
-            c["tree"], c.get("cols", 80), " ".join(c["names"]), " ".join(c["names"]))
+        return "DefaultApplicationConfig application %r at COLUMNS=%d: 'help %s' against '%s --help' and '-h'%s" % (
+            c["tree"], c.get("cols", 80), " ".join(c["names"]), " ".join(c["names"]),
+            " (the command %r named through aliases)" % " ".join(c["canon"]) if c.get("canon") else "")
     if c["k"] == 2:
         return "textwrap.wrap(%r, %d)" % (c["text"], c["width"])
     return "%s at width %s, %s, application %r" % ("application help" if c["k"] == 1 else "help of command path %r" % c["path"],
@@ -445,13 +479,26 @@ def layout_elems(layout):
     return elems
 
 
+def live_application(t):
+    """display name, version, help text and the commands of the default configuration, in the model's wire form"""
+    cfg = default_app(t).config
+    cmds = [[S(cc.name), int(bool(cc.is_anonymous())), int(bool(cc.is_enabled())), int(bool(cc.is_hidden())), S(cc.description or "")] for cc in cfg.command_configs]
+    return [o_(cfg.display_name), o_(cfg.version), o_(ref_format(cfg.help, script_name=cfg.name or "console")), cmds]
+
+
 def target_elems(t, idx):
     """the layout elements of the page of the help target (to know how wide a terminal that page needs)"""
     from clikit.io import BufferedIO
     from clikit.formatter import PlainFormatter
-    from clikit.ui.help import CommandHelp
+    from clikit.ui.help import CommandHelp, ApplicationHelp
     from clikit.ui.layout import BlockLayout
     app = default_app(t)
+    if not idx:
+        helper = ApplicationHelp(app)
+        helper._formatter = BufferedIO(formatter=PlainFormatter())
+        layout = BlockLayout()
+        helper._render_help(layout)
+        return layout_elems(layout)
     cur = t["cmds"][idx[0]]
     cmd = app.get_command(cur["name"])
     for i in idx[1:]:
@@ -470,8 +517,10 @@ def run_impl(c):
         old = os.environ.get("COLUMNS")
         os.environ["COLUMNS"] = str(c.get("cols", 80))
         try:
-            a, b, d = run_default(c["tree"], "help " + path), run_default(c["tree"], path + " --help"), run_default(c["tree"], path + " -h")
+            a, b, d = run_default(c["tree"], ("help " + path).strip()), run_default(c["tree"], (path + " --help").strip()), \
+                run_default(c["tree"], (path + " -h").strip())
             gopts = live_global_options(c["tree"])
+            appinfo = live_application(c["tree"]) if not c["path"] else []
         finally:
             if old is None:
                 del os.environ["COLUMNS"]
@@ -485,7 +534,7 @@ def run_impl(c):
             elems = target_elems(c["tree"], help_target_path(c["tree"], c["path"]))
         except Exception:  # noqa
             elems = []
-        return [int(a == b == d), 1 if a[0] == 0 else 0, [S(repr(x)[:3000]) for x in (a, b, d)], c.get("cols", 80), gopts, page, elems]
+        return [int(a == b == d), 1 if a[0] == 0 else 0, [S(repr(x)[:3000]) for x in (a, b, d)], c.get("cols", 80), gopts, page, elems, appinfo]
     if c["k"] == 2:
         try:
             return [0, [S(l) for l in textwrap.wrap(c["text"], c["width"])]]
@@ -632,7 +681,17 @@ def oracle(c, o):
         # which page: the USAGE block starts with the synopsis of the named command ('app server add ...'; a page of another
         # command starts with other names, a command's own name is in brackets only on the page of its parent)
         lines = visible_lines(unS(o[5][1]))
-        want = " ".join([c["tree"]["name"] or "app"] + c["names"])
+        if not c["path"]:
+            # 'help' alone: the application's page (it does not start with a USAGE block; its synopsis names no command)
+            # (the global options stand between the name and the arguments)
+            k0 = lines.index("USAGE") if "USAGE" in lines else -1
+            first = lines[k0 + 1].strip() if 0 < k0 < len(lines) - 1 else ""
+            k1 = lines.index("", k0 + 1) if k0 >= 0 and "" in lines[k0 + 1:] else len(lines)
+            if not first.startswith((c["tree"]["name"] or "app") + " ") or "<command>" not in "".join(lines[k0 + 1:k1]) \
+                    or "ARGUMENTS" not in lines:
+                return "help-shows-the-page-of-another-command"
+            return None
+        want = " ".join([c["tree"]["name"] or "app"] + c.get("canon", c["names"]))
         first = lines[1].strip() if len(lines) > 1 and lines[0] == "USAGE" else ""
         if not (first == want or first.startswith(want + " ")):
             return "help-shows-the-page-of-another-command"
@@ -753,6 +812,18 @@ def oracle0(c, o):
                 return "argument-missing-in-synopsis"
     if not narrow and not value_names_shown([o_ for lvl in chain + [s for s in cur["subs"] if s["enabled"]] for o_ in lvl["opts"]]):
         return "value-name-missing-in-synopsis"
+    if not narrow and k0 >= 0:
+        # 'never a hidden or disabled command': not in the USAGE block either.  (A hidden DEFAULT sub-command has its synopsis
+        # there - it is how the command itself is used; recorded reading, Props/C13.v usage_entries_origin.)  An entry of the
+        # block starts at a line whose text - behind the 'or: ' of all entries but the first - begins with the names
+        base = " ".join([t["name"] or "console"] + [x["name"] for x in chain[1:] if not x["anonymous"]])
+        entries = [l.strip(" ") for l in lines[k0 + 1:k1]]
+        entries = [e[4:] if e.startswith("or: ") else e for e in entries]
+        for s in cur["subs"]:
+            if (not s["enabled"]) or (s["hidden"] and not (s["default"] or s["anonymous"])):
+                w_ = base + " " + s["name"]
+                if any(e == w_ or e.startswith(w_ + " ") for e in entries):
+                    return "hidden-or-disabled-command-in-usage"
     for s in cur["subs"]:
         shown = any(re.match(r"^  %s$" % re.escape(s["name"]), l) for l in lines)
         want = s["enabled"] and not s["hidden"] and not s["anonymous"]
@@ -773,7 +844,7 @@ def oracle0(c, o):
 def nontrivial_key(c, o):
     import json
     if c["k"] == 3:
-        return ("h", json.dumps(c["tree"], sort_keys=True), tuple(c["names"]), c.get("cols", 80))
+        return ("h", json.dumps(c["tree"], sort_keys=True), tuple(c["names"]), c.get("cols", 80)) if c["names"] else None
     if c["k"] == 2:
         return ("w", c["text"], c["width"]) if o[0] == 0 and len(o[1]) > 1 else None
     if o[0] == -1:
